@@ -22,6 +22,15 @@ BinOpName(op) == CASE op = "+" -> "ADD" [] op = "-" -> "SUB" [] op = "*" -> "MUL
                    [] op = "<" -> "LT" [] op = "<=" -> "LE" [] op = "==" -> "EQ" [] op = "!=" -> "NE" [] op = ">=" -> "GE"
                    [] op = ">" -> "GT" [] op = "in" -> "IN"
 
+(* adjacent literal parts of an f-string are one piece of text to the tokenizer *)
+RECURSIVE MergeSegs(_, _, _)
+MergeSegs(segs, i, acc) ==
+    IF i > Len(segs) THEN acc
+    ELSE IF "s" \in DOMAIN segs[i] /\ acc # <<>> /\ "s" \in DOMAIN acc[Len(acc)]
+         THEN MergeSegs(segs, i + 1, [acc EXCEPT ![Len(acc)] = [s |-> acc[Len(acc)].s \o segs[i].s]])
+         ELSE MergeSegs(segs, i + 1, Append(acc, segs[i]))
+Segs1(t) == MergeSegs(t.segs, 1, <<>>)
+
 RECURSIVE Chain(_, _)
 (* operands of a left-nested chain of one short-circuit operator (a parenthesis starts a new chain) *)
 Chain(t, op) == IF t.k = "bin" /\ t.op = op THEN Append(Chain(t.l, op), t.r) ELSE <<t>>
@@ -72,7 +81,7 @@ C(t) ==
       [] t.k = "map" -> CPairs(t.kv, 1) \o <<N("MKDICT", Len(t.kv))>>
       [] t.k = "sel" -> C(t.e) \o <<Push([t |-> "ident", n |-> t.f, fc |-> t.fc]), I("ACCESS")>>
       [] t.k = "idx" -> C(t.e) \o C(t.i) \o <<I("INDEX")>>
-      [] t.k = "fstr" -> CSegs(t.segs, 1) \o <<N("FMT", Len(t.segs))>>
+      [] t.k = "fstr" -> CSegs(Segs1(t), 1) \o <<N("FMT", Len(Segs1(t)))>>
       [] t.k = "match" ->
            LET tail == <<I("POP"), Push(VNull)>> IN
            C(t.e) \o CCases(t.cases, 1, CasesLen(t.cases, 1) + 2) \o tail
@@ -167,13 +176,14 @@ F(t) ==
            LET a == F(t.e)  b == F(t.i) IN
            IF a.c /\ b.c THEN Cst(Op2("INDEX", a.v, b.v)) ELSE Cod(BC(a) \o BC(b) \o <<I("INDEX")>>)
       [] t.k = "fstr" ->
-           LET RECURSIVE Sg(_)
-               Sg(i) == IF i > Len(t.segs) THEN <<>>
-                        ELSE <<Push(IF "s" \in DOMAIN t.segs[i] THEN VStr(t.segs[i].s) ELSE Code(BC(F(t.segs[i].e)))), PushId("string"), N("CALL", 1)>> \o Sg(i + 1)
+           LET sg == Segs1(t)
+               RECURSIVE Sg(_)
+               Sg(i) == IF i > Len(sg) THEN <<>>
+                        ELSE <<Push(IF "s" \in DOMAIN sg[i] THEN VStr(sg[i].s) ELSE Code(BC(F(sg[i].e)))), PushId("string"), N("CALL", 1)>> \o Sg(i + 1)
                RECURSIVE Txt(_)
-               Txt(i) == IF i > Len(t.segs) THEN <<>> ELSE t.segs[i].s \o Txt(i + 1)
-           IN IF \A i \in 1..Len(t.segs) : "s" \in DOMAIN t.segs[i] THEN Cst(VStr(Txt(1)))       \* no expression segment: the tokenizer yields a plain string
-              ELSE Cod(Sg(1) \o <<N("FMT", Len(t.segs))>>)
+               Txt(i) == IF i > Len(sg) THEN <<>> ELSE sg[i].s \o Txt(i + 1)
+           IN IF \A i \in 1..Len(sg) : "s" \in DOMAIN sg[i] THEN Cst(VStr(Txt(1)))       \* no expression segment: the tokenizer yields a plain string
+              ELSE Cod(Sg(1) \o <<N("FMT", Len(sg))>>)
       [] t.k = "match" ->
            LET Pat(p) == IF p.pk = "any" THEN <<I("POP"), Push(VTrue)>>
                          ELSE IF p.pk = "type" THEN <<PushId("type"), N("CALL", 1), PushId(p.n), I("EQ")>>
